@@ -24,8 +24,16 @@ func TestPoly(t *testing.T) {
 	var x mldsaref.Poly
 	x[1] = 1
 	if d := firstDiff(nttToRef(imldsa.VerifNTT(polyFromRef(x))), mldsaref.NTTDirect(x)); d >= 0 {
-		t.Fatalf("ntt(X) differs from the evaluations of X at the roots zeta^(2*BitRev8(i)+1) at index %d: output ordering is not the one of FIPS 204 Algorithm 41", d)
+		t.Fatalf("ntt(X) differs from the evaluations of X at the roots zeta^(2*BitRev8(i)+1) at index %d: wrong root of unity or an output ordering other than FIPS 204 Algorithm 41", d)
 	}
+	// the table of roots: zetas[m] = zeta^BitRev8(m) for m = 1..255 (entry 0 is never used)
+	tz, rz := imldsa.VerifZetas(), mldsaref.Zetas()
+	for m := 1; m < 256; m++ {
+		if int64(tz[m]) != rz[m] {
+			t.Fatalf("zetas[%d] = %d, FIPS 204 zeta^BitRev8(%d) mod q = %d", m, tz[m], m, rz[m])
+		}
+	}
+	evid.Bulk("zeta-table", 255)
 	rapid.Check(t, func(rt *rapid.T) {
 		detrand.Seed(rapid.Uint64().Draw(rt, "entropy"))
 		a, ka := drawPoly(rt, "a")
